@@ -236,11 +236,14 @@ class MibCompiler(object):
                     if not mibTrees:
                         raise error.PySmiError('no MIB module found in %s' % fileInfo.path)
 
-                    for mibTree in mibTrees:
-                        mibInfo, symbolTable = self._symbolgen.genCode(
-                            mibTree, symbolTableMap
-                        )
+                    # build the symbol tables of all modules of the file before
+                    # taking any of them: a file with a broken module is refused
+                    # as a whole (and the next source is tried) rather than left
+                    # half-registered under a name that is reported as failed
+                    fileMibs = [self._symbolgen.genCode(mibTree, symbolTableMap) + (mibTree,)
+                                for mibTree in mibTrees]
 
+                    for mibInfo, symbolTable, mibTree in fileMibs:
                         symbolTableMap[mibInfo.name] = symbolTable
 
                         parsedMibs[mibInfo.name] = fileInfo, mibInfo, mibTree
